@@ -52,6 +52,12 @@ inductive TyName where
   | map                 -- plain map
   deriving DecidableEq, Repr, Inhabited
 
+/-- how a nest of auxiliary `@iterator` objects ends: the innermost `@iterator` returns a list, a
+number (not iterable), or — closing a cycle — the object the iteration started from -/
+inductive NestFin where
+  | lst | int | back
+  deriving DecidableEq, Repr, Inhabited
+
 /-- abstract runtime values appearing as `self`, arguments and results -/
 inductive AV where
   | prim (k : PrimK)                 -- the fixed operand value of that kind
@@ -65,6 +71,8 @@ inductive AV where
   | gen                               -- the iterator of a generator (forward only)
   | pmap                              -- a plain map value returned by a callee
   | inner (next : Bool)               -- the auxiliary objects 900 (`@next`) / 901 (`@iterator`)
+  | aux (i d : Nat) (fin : NestFin)   -- i-th (1…d) object of a nest: name 909+i, its `@iterator`
+                                      -- returns object i+1, the d-th returns `fin`
   | one (v : AV)                      -- a one-element list holding `v`
   | obj (n : Name)                    -- a map operand / layer (by identity)
   | host (n : Name) (gen : Nat)       -- host object; gen = number of `copy()` steps from the original
@@ -87,7 +95,13 @@ inductive RV where
                    -- (generated only under `@iterator`)
   | innerNext      -- another object (name 900) with `@next` counting 2
   | innerIter      -- another object (name 901) whose own `@iterator` returns the list [20, 21]
+  | nest (d : Nat) (fin : NestFin)   -- the head of a nest of `d` auxiliary objects (see `AV.aux`)
   deriving DecidableEq, Repr, Inhabited
+
+def NestFin.toAV (root : AV) : NestFin → AV
+  | .lst => .lst [20, 21]
+  | .int => .int 5
+  | .back => root
 
 def RV.toAV (self : AV) : RV → AV
   | .null => .null
@@ -103,6 +117,7 @@ def RV.toAV (self : AV) : RV → AV
   | .gen => .gen
   | .innerNext => .inner true
   | .innerIter => .inner false
+  | .nest d fin => if d = 0 then fin.toAV self else .aux 1 d fin
 
 /-- abstract behaviour of a function stored under a metakey (or of a host method) -/
 inductive Beh where
@@ -250,6 +265,7 @@ inductive Err where
   | unexpectedKey      -- derived `access_assign` without setter / fallback: "unexpected key: …"
   | oob
   | noIndex
+  | tooNested          -- "too many nested @iterator calls" (`make_iterator`'s nesting limit)
   | notReversible      -- `iterator.reversed`: "the provided iterator isn't bidirectional"
   | display            -- "failed to get display value"
   | diverge            -- the operation would not terminate (never generated)
@@ -864,10 +880,9 @@ def hostIterate (h : HostD) (notIterable : Out) : Out :=
   | .forward n => hostDrive h .iteratorNext n
   | .bidirectional n => hostDrive h .iteratorNext n
 
-/-- The public `make_iterator` applied to the value an `@iterator` function returned, driven to its
-end (`t`: what was traced so far). Every iterable kind is converted — iterator, generator result,
-list, tuple, range, string, plain map, another object with `@next` or with its own `@iterator` —
-anything else is "expected Iterable" (a type error). -/
+/-- `make_iterator` on a value that is *not* a map with `@iterator` (a leaf of the nesting walk),
+driven to its end (`t`: what was traced so far): iterator, generator result, list, tuple, range,
+string, plain map, an object with `@next` — anything else is "expected Iterable" (a type error). -/
 def iterateResult (t : List Ev) : CallRes → Out
   | .ret .iter => ⟨t, .ok (.lst [20, 21])⟩
   | .ret .gen => ⟨t, .ok (.lst [20, 21])⟩
@@ -878,12 +893,38 @@ def iterateResult (t : List Ev) : CallRes → Out
   | .ret .pmap => ⟨t, .ok .builtin⟩
   | .ret (.inner true) =>
     ⟨t ++ (List.range 3).map (fun _ => (⟨900, .mk .Next, .inner true, []⟩ : Ev)), .ok (.lst [10, 11])⟩
-  | .ret (.inner false) => ⟨t ++ [⟨901, .mk .Iterator, .inner false, []⟩], .ok (.lst [20, 21])⟩
-  -- `@iterator` returning the object itself: `make_iterator` re-enters without bound (native
-  -- recursion, stack overflow) — outside the generated envelope
-  | .ret (.obj _) => ⟨t, .err .diverge⟩
+  -- a map without `@iterator` / `@next` (e.g. a callable map of a `@call` chain): its data entries
+  | .ret (.obj _) => ⟨t, .ok .builtin⟩
   | .ret _ => ⟨t, .err .type⟩
   | r => ⟨t, r.pass⟩
+
+/-- one step of the nesting walk: `some (event, value)` when the value is a map with `@iterator`
+(and no `@next`) — evaluating it is the event and yields the next value — `none` for a leaf -/
+abbrev IterStep := AV → Option (Ev × AV)
+
+/-- `make_iterator_with_nesting_limit(value, limit)` (/repo 47b1155): every `@iterator` evaluation
+consumes one level; a map with `@iterator` met at level 0 is "too many nested @iterator calls".
+Stated for an arbitrary object graph `nx`. -/
+def iterWalk (nx : IterStep) (leaf : List Ev → CallRes → Out) : Nat → AV → List Ev → Out
+  | 0, v, t =>
+    match nx v with
+    | some _ => ⟨t, .err .tooNested⟩
+    | Option.none => leaf t (.ret v)
+  | l + 1, v, t =>
+    match nx v with
+    | some (e, nv) => iterWalk nx leaf l nv (t ++ [e])
+    | Option.none => leaf t (.ret v)
+
+/-- the object graph of the generated cases: the operand (`rootSelf`, whose `@iterator` call is
+`rootEv` and returns `v0`), the nest objects `aux`, and object 901 -/
+def nestStep (rootSelf : AV) (rootEv : Ev) (v0 : AV) : IterStep
+  | .aux i d fin =>
+    some (⟨909 + i, .mk .Iterator, .aux i d fin, []⟩, if i < d then .aux (i + 1) d fin else fin.toAV rootSelf)
+  | .inner false => some (⟨901, .mk .Iterator, .inner false, []⟩, .lst [20, 21])
+  | v => if v = rootSelf then some (rootEv, v0) else Option.none
+
+/-- the public API starts with 16 levels; the operand's own `@iterator` takes the first -/
+def nestingLimit : Nat := 16
 
 /-- `for v in x` : `run_make_iterator` + `run_iterator_next`; result = the collected values -/
 def forLoop (o : Opd) : Out :=
@@ -912,8 +953,11 @@ def forLoop (o : Opd) : Out :=
           -- the callee's value is put into the iterator register; `run_iterator_next` iterates
           -- iterators / ranges / tuples / strings / maps with `@next` in place and converts
           -- everything else with `make_iterator` on first use (/repo bf483d2)
-          let (t, r) := invoke tag .Iterator mv m.av []
-          iterateResult t r
+          -- `MakeIterator` evaluates the operand's `@iterator` itself (no limit applies to that call);
+          -- `IterNext` converts what is left with `make_iterator` (all 16 levels still available)
+          match invoke tag .Iterator mv m.av [] with
+          | (t, .ret v0) => iterWalk (nestStep m.av (t.headD default) v0) iterateResult nestingLimit v0 t
+          | (t, r) => ⟨t, r.pass⟩
       | Option.none => ⟨[], .ok .builtin⟩       -- plain map iteration
   -- a host object that is not iterable is iterated *once* (like any single value), no error
   | .host h => hostIterate h ⟨[], .ok (.one h.av)⟩
@@ -941,12 +985,29 @@ def toList (o : Opd) : Out :=
         if mv == .nonCallable then ⟨[], .err .type⟩
         else
           -- `@iterator` is evaluated, then an iterator is made from its (iterable) result
-          let (t, r) := invoke tag .Iterator mv m.av []
-          iterateResult t r
+          match invoke tag .Iterator mv m.av [] with
+          | (t, .ret v0) =>
+            iterWalk (nestStep m.av (t.headD default) v0) iterateResult (nestingLimit - 1) v0 t
+          | (t, r) => ⟨t, r.pass⟩
       | Option.none =>
         -- `KValue::is_iterable`: a map with a metamap is iterable only through `@iterator`/`@next`
         if m.top.metaOf.isSome then ⟨[], .err .type⟩ else ⟨[], .ok .builtin⟩
   | .host h => hostIterate h ⟨[], .err .type⟩
+
+/-- leaf of the nesting walk for `iterator.reversed`: the iterator must be bidirectional -/
+def reverseResult (t : List Ev) : CallRes → Out
+  | .ret .iter => ⟨t, .ok (.lst [21, 20])⟩
+  -- generators are forward only; the generator's body (the last call's trace) never starts
+  | .ret .gen => ⟨t.dropLast, .err .notReversible⟩
+  | .ret (.tup xs) => ⟨t, .ok (.lst xs.reverse)⟩
+  | .ret (.lst xs) => ⟨t, .ok (.lst xs.reverse)⟩
+  | .ret (.prim .range) => ⟨t, .ok (.lst [1, 0])⟩
+  | .ret .str => ⟨t, .ok .builtin⟩
+  | .ret .pmap => ⟨t, .ok .builtin⟩
+  | .ret (.inner true) => ⟨t, .err .notReversible⟩   -- object 900 has no `@next_back`
+  | .ret (.obj _) => ⟨t, .ok .builtin⟩
+  | .ret _ => ⟨t, .err .type⟩
+  | r => ⟨t, r.pass⟩
 
 /-- `iterator.to_list(iterator.reversed(x))`: the object is reversible only through `@next_back`
 (looked at only when `@next` exists); then `@next_back` alone is called until `null` -/
@@ -975,19 +1036,8 @@ def reversed (o : Opd) : Out :=
         if mv == .nonCallable then ⟨[], .err .type⟩
         else
           match invoke tag .Iterator mv m.av [] with
-          | (t, .ret .iter) => ⟨t, .ok (.lst [21, 20])⟩
-          -- generators are forward only; the generator's body (and its trace) never starts
-          | (_, .ret .gen) => ⟨[], .err .notReversible⟩
-          | (t, .ret (.tup xs)) => ⟨t, .ok (.lst xs.reverse)⟩
-          | (t, .ret (.lst xs)) => ⟨t, .ok (.lst xs.reverse)⟩
-          | (t, .ret (.prim .range)) => ⟨t, .ok (.lst [1, 0])⟩
-          | (t, .ret .str) => ⟨t, .ok .builtin⟩
-          | (t, .ret .pmap) => ⟨t, .ok .builtin⟩
-          | (t, .ret (.inner true)) => ⟨t, .err .notReversible⟩   -- object 900 has no `@next_back`
-          | (t, .ret (.inner false)) =>
-            ⟨t ++ [⟨901, .mk .Iterator, .inner false, []⟩], .ok (.lst [21, 20])⟩
-          | (t, .ret (.obj _)) => ⟨t, .err .diverge⟩
-          | (t, .ret _) => ⟨t, .err .type⟩
+          | (t, .ret v0) =>
+            iterWalk (nestStep m.av (t.headD default) v0) reverseResult (nestingLimit - 1) v0 t
           | (t, r) => ⟨t, r.pass⟩
       | Option.none => if m.top.metaOf.isSome then ⟨[], .err .type⟩ else ⟨[], .ok .builtin⟩
   | .host h =>
